@@ -10,7 +10,8 @@ EXPLANATION = (
     "calls TriplePattern::matches, and each index arm looks its index up with the pattern component of the same name; "
     "(R3) the object-index arm of find is guarded by config.index_objects and triples_with_object falls back to a scan; "
     "(R4) find_with_pending removes pending deletes and adds a pending insert only under a membership test against the "
-    "result so far (set semantics). SPARQL algebra is not decided.")
+    "result so far (set semantics); (R5) TriplePattern::matches rejects exactly when a bound component differs from the "
+    "triple's component of the same name. SPARQL algebra is not decided.")
 ASSUMPTIONS = ["Triple::{subject,predicate,object} and TriplePattern.{subject,predicate,object} name the components consistently"]
 
 R = common.RDF
